@@ -1197,6 +1197,36 @@ def fam_search(P, n, tier):
     return out
 
 
+def fam_bigcap(P, n, tier):
+    """C13: an event queue of 260 entries (more than one byte can count): fill it completely, overfill it,
+    drain it, fill again across the wrap-around; FIFO order is visible because the events alternate between
+    commands with different texts"""
+    out = []
+    for i in range(n):
+        sc = Scn('bigcap%d' % i, cap=260, buf_size=48, ubuf_size=P.choice([-1, 24]), fill=0)
+        evs = [Cmd('+E%d' % j, vars=[Var(UINT, 1, RW, init=bytes([j + 1]))]) for j in range(3)]
+        sc.add_group(evs)
+        sched(P, sc, style=P.choice(['eager', 'rand']))
+        pre = P.choice([0, 3, 100])
+        for j in range(pre):
+            sc.op('t %d %d' % (evs[j % 3].ci, T_READ))
+        if pre:
+            sc.drain(20000)
+        for j in range(P.choice([255, 256, 257, 260, 263])):
+            sc.op('t %d %d' % (evs[P.randint(0, 2)].ci, P.choice([T_READ, T_READ, T_TEST])))
+            if j in (254, 255, 256, 259):
+                sc.op('u')
+                sc.op('q %d %d' % (evs[0].ci, T_NONE))
+        sc.op('u')
+        sc.service(P.choice([1, 40]))
+        sc.op('u')
+        sc.op('t %d %d' % (evs[0].ci, T_READ))
+        sc.drain(40000)
+        sc.op('u')
+        out.append(sc)
+    return out
+
+
 def fam_overlap(P, n, tier):
     """both machines walking over variables at overlapping times: a command line (READ with a read handler and
     read callbacks, or WRITE of all variables) is served while an event on the same or on another command with
@@ -1416,7 +1446,7 @@ def fam_exharg(P, n, tier):
 FAMILIES = {
     'mixed': fam_mixed, 'names': fam_names, 'num': fam_num, 'buf': fam_buf, 'cap': fam_cap, 'rc': fam_rc,
     'events': fam_events, 'hold': fam_hold, 'mutex': fam_mutex, 'lines': fam_lines, 'rt': fam_rt,
-    'wo': fam_wo, 'list': fam_list, 'bytes': fam_bytes, 'sched': fam_sched, 'units': fam_units, 'lanes': fam_lanes, 'search': fam_search, 'manycmds': fam_manycmds, 'testev': fam_testev, 'overlap': fam_overlap, 'exh': fam_exh, 'mxev': fam_mxev, 'exharg': fam_exharg,
+    'wo': fam_wo, 'list': fam_list, 'bytes': fam_bytes, 'sched': fam_sched, 'units': fam_units, 'lanes': fam_lanes, 'search': fam_search, 'manycmds': fam_manycmds, 'testev': fam_testev, 'overlap': fam_overlap, 'bigcap': fam_bigcap, 'exh': fam_exh, 'mxev': fam_mxev, 'exharg': fam_exharg,
 }
 
 
